@@ -8,6 +8,9 @@
      fault <old> <new|FAIL> <k> <fail|short> <n>
                                           -> same, for Transform on a file holding <old> with
                                              the k-th visible operation (0-based) failing
+     faultcall <call> <arg> <file> <k> <fail|short> <n>
+                                          -> same for any call (createwrite / editwrite <data>:
+                                             Create resp. Edit, then Write(data), then Close)
      spec <call> <arg> <reg>              -> <outcome> <new reg>   (call_spec: the sequential
                                              specification used by the linearisability theorem)
    <outcome> = ok | err | data:<hex> | blocked
@@ -44,6 +47,8 @@ let call_of name arg : call =
   | "open" -> COpen ok_body
   | "mutex" -> CMutex
   | "openfile" -> COpenFile (n_of_int (int_of_string arg), ok_body)
+  | "createwrite" -> CCreate (write_body (bytes_of_hex arg))
+  | "editwrite" -> CEdit (write_body (bytes_of_hex arg))
   | _ -> failwith "bad call"
 let show (tr, out, o) =
   let vis = List.filter (fun (op, _) -> not (is_mark op)) tr in
@@ -70,6 +75,14 @@ let () = serve (function
   | ["fault"; old; nw; k; kind; n] ->
       let c = call_of "transform" nw in
       let file = Some (bytes_of_hex old) in
+      let (tr0, _, _) = run_call c no_faults file in
+      let flt = if kind = "short" then FShort (nat_of_int (int_of_string n)) else FFail in
+      (match global_index tr0 (int_of_string k) with
+       | None -> show (run_call c no_faults file)
+       | Some g -> show (run_call c (fault_at (nat_of_int g) flt) file))
+  | ["faultcall"; name; arg; file; k; kind; n] ->
+      let c = call_of name arg in
+      let file = file_of file in
       let (tr0, _, _) = run_call c no_faults file in
       let flt = if kind = "short" then FShort (nat_of_int (int_of_string n)) else FFail in
       (match global_index tr0 (int_of_string k) with
